@@ -83,22 +83,9 @@ def run(ctx):
     magic = bytes.fromhex(cr.const("serde_2026::SERDE_2026_MAGIC_PREFIX").get("bytes", ""))
     if len(magic) < 2:
         raise mir.AnchorMissing("SERDE_2026_MAGIC_PREFIX not extracted")
-    d = cr.fn("serde::parse_atom::decode_size_with_offset")
+    from rules import c15
+    d, caps, _raw = c15.decoder_caps(cr)
     ck.analysed(d)
-    d.status()
-    caps = {}
-    for b in sorted(d.reachable_blocks()):
-        if d.term(b)["k"] == "switch":
-            n = compare_norm(d.switch_cond(b))
-            be = d.bool_edges(b)
-            if n and be and d.is_error_block(be[0]) and len(n[0]) == 1 and n[2] == ">0":
-                k = list(n[0])[0]
-                if "atom_size" in k:
-                    caps["size"] = -n[1] + 1      # atom_size >= cap rejected
-                elif "size_blob" in k:
-                    caps["prefix"] = -n[1]        # len > prefix cap rejected
-                elif "leading_ones" in k:
-                    caps["ones"] = -n[1] + 1      # leading_ones >= 8 rejected
     b0 = magic[0]
     ones = 0
     for i in range(7, -1, -1):
